@@ -559,6 +559,13 @@ class EndpointResponseHandlerGenerator:
                 writer.write_line("return  # Explicit return for async generator")
             return
 
+        # A string response whose declared content types are all text/* carries plain text, not JSON
+        if strategy.return_type == "str" and strategy.response_ir is not None and strategy.response_ir.content:
+            media_types = [ct.split(";")[0].strip().lower() for ct in strategy.response_ir.content]
+            if all(mt.startswith("text/") for mt in media_types):
+                writer.write_line("return response.text")
+                return
+
         # Use response.json() directly - no automatic unwrapping
         data_expr = "response.json()"
 
